@@ -197,6 +197,12 @@ func (u *unpacker) read(sz uint64, x interface{}) bool {
 }
 
 func (u *unpacker) readStr(n int) (ok bool) {
+	// The length comes from the packed data: check it against what is left to
+	// read before allocating anything.
+	if n < 0 || n > len(u.pack)-u.j {
+		u.err = errUnexpectedPackEnd
+		return false
+	}
 	if !u.consumeBudget(uint64(n)) {
 		return false
 	}
